@@ -916,7 +916,11 @@ impl StateMachine for RocksDBStateMachine {
             }
         }
 
+        #[cfg(d_engine_verif)]
+        d_engine_core::verif::point("rsm_apply:before_write", None, 0, 0);
         db.write_wbwi(&batch).map_err(|e| StorageError::DbError(e.to_string()))?;
+        #[cfg(d_engine_verif)]
+        d_engine_core::verif::point("rsm_apply:after_write", None, 0, 0);
 
         if let Some(highest) = highest_index_entry {
             self.update_last_applied(highest);
@@ -1156,6 +1160,8 @@ impl StateMachine for RocksDBStateMachine {
             expired_keys.len()
         );
 
+        #[cfg(d_engine_verif)]
+        d_engine_core::verif::point("rsm_cleanup:after_lease", None, 0, 0);
         // Delete expired keys from RocksDB
         let batch = self.with_db(|db| {
             let cf = db.cf_handle(STATE_MACHINE_CF).ok_or_else(|| {
